@@ -314,6 +314,62 @@ def add_hpke(reg):
     reg.add(Contract(HC + '._verify_psk_inputs', params={'mode': 'int[0..3]', 'psk_pair': 'tuple(bytes,bytes)'},
                      raises={'ValueError': ('iff', 'not %spsk_inputs_ok(mode, psk_pair[1], psk_pair[0])' % R)},
                      modifies=[], bv_width=1))
+    # ---- key schedule (RFC 9180 5.1).  Called from __init__ before the object is complete: explicit preconditions, no valid(self)
+    ks_args = 'self._hashmod.g_alg, %s, self._mode, shared_secret, info, psk, psk_id' % _suite('self')
+    reg.add(Contract(HC + '._key_schedule', params={'shared_secret': 'bytes', 'info': 'bytes', 'psk_id': 'bytes', 'psk': 'bytes'},
+                     options={'assume_valid': False},
+                     requires=['valid(self._hashmod)', '0 <= self._kem_id <= 65535', '0 <= self._kdf_id <= 65535',
+                               'self._Nk == %saead_nk(self._aead_id)' % R, 'self._Nh == self._hashmod.digest_size', 'self._Nh <= 65535'],
+                     raises={}, modifies=[],
+                     ensures={'key': 'result[0] == %sks_key(%s, self._Nk)' % (R, ks_args),
+                              'base_nonce': 'result[1] == %sks_base_nonce(%s)' % (R, ks_args),
+                              'exporter_secret': 'result[2] == %sks_exporter_secret(%s, self._Nh)' % (R, ks_args),
+                              'lengths': 'len(result[0]) == self._Nk and len(result[1]) == 12 and len(result[2]) == self._Nh'},
+                     opaque=[R + 'labeled_extract', R + 'labeled_expand']))
+    # ---- DHKEM (RFC 9180 4.1): Encap / AuthEncap / Decap / AuthDecap.  A private key is designated in DH(kem, sk, pk) by the
+    # serialization of its own public key, so the statement about a freshly generated ephemeral key is made through enc
+    kem = R + 'kem_of_curve(receiver_key.curve)'
+    pkR, pkS = 'receiver_key.g_pub', 'sender_key.g_pub'
+
+    def secret(dh, ctx):
+        return '%sextract_and_expand(hashmod.g_alg, %s, %s, %ssuite_id_kem(kem_id), hashmod.digest_size)' % (R, dh, ctx, R)
+
+    def DH(sk, pk):
+        return '%sDH(%s, %s, %s)' % (R, kem, sk, pk)
+
+    def bad(sk, pk):
+        return '%sdh_invalid(%s, %s, %s)' % (R, kem, sk, pk)
+    same_curve = ['sender_key is None or sender_key.curve == receiver_key.curve', 'hashmod.digest_size <= 65535']
+    E_ = 'result[1]'
+    reg.add(Contract(HC + '._encap',
+                     params={'receiver_key': KEY, 'kem_id': 'int[0..65535]', 'hashmod': HASHMOD, 'sender_key': KEY + '|none', 'eph_key': KEY + '|none'},
+                     requires=same_curve + ['sender_key is None or sender_key.has_private()',
+                                            'eph_key is None or (eph_key.has_private() and eph_key.curve == receiver_key.curve)'],
+                     # 7.1.4: abort when a DH result is invalid; with a generated ephemeral key the condition is about fresh entropy,
+                     # hence `only_if` + the two `dh_ok` postconditions (together: raises iff, for a given eph_key)
+                     raises={'ValueError': ('only_if', '(eph_key is None or %s) or (sender_key is not None and %s)'
+                                            % (bad('eph_key.g_pub', pkR), bad(pkS, pkR)))},
+                     modifies=[],
+                     ensures={'enc': 'eph_key is not None ==> %s == eph_key.g_pub' % E_,
+                              'base': 'sender_key is None ==> result[0] == ' + secret(DH(E_, pkR), '%s + %s' % (E_, pkR)),
+                              'auth': 'sender_key is not None ==> result[0] == '
+                                      + secret('%s + %s' % (DH(E_, pkR), DH(pkS, pkR)), '%s + %s + %s' % (E_, pkR, pkS)),
+                              'dh_ok': 'not ' + bad(E_, pkR), 'dh_ok_auth': 'sender_key is not None ==> not ' + bad(pkS, pkR),
+                              'len': 'len(result[0]) == hashmod.digest_size'},
+                     opaque=[R + 'extract_and_expand']))
+    pkE = '%spk_canon(%s, enc)' % (R, kem)
+    reg.add(Contract(HC + '._decap',
+                     params={'enc': 'bytes', 'receiver_key': KEY, 'kem_id': 'int[0..65535]', 'hashmod': HASHMOD, 'sender_key': KEY + '|none'},
+                     requires=same_curve + ['receiver_key.has_private()', 'receiver_key.curve in %r' % (HPKE_CURVES,)],
+                     raises={'DeserializeError': ('iff', 'not %spk_ok(%s, enc)' % (R, kem)),
+                             'ValueError': ('iff', '%spk_ok(%s, enc) and (%s or (sender_key is not None and %s))'
+                                            % (R, kem, bad(pkR, pkE), bad(pkR, pkS)))},
+                     modifies=[],
+                     ensures={'base': 'sender_key is None ==> result == ' + secret(DH(pkR, pkE), 'enc + ' + pkR),
+                              'auth': 'sender_key is not None ==> result == '
+                                      + secret('%s + %s' % (DH(pkR, pkE), DH(pkR, pkS)), 'enc + %s + %s' % (pkR, pkS)),
+                              'len': 'len(result) == hashmod.digest_size'},
+                     opaque=[R + 'extract_and_expand']))
     # ---- C15 history / C11: the sequence number and the nonce
     seq_nonce = '%snonce(self._base_nonce, old(self._sequence))' % R
     reg.add(Contract(HC + '._new_cipher', params={},
